@@ -62,6 +62,10 @@ def run(chk: Check, proj: Project) -> None:
     from . import C19
 
     C19.s5(chk, proj, w, rule="S10")
+    from . import generic
+
+    chk.rule("S13", "render routes and dependency helpers forward every shared parameter (type / render_dependencies among them), generic form (shared with C01-S10)")
+    generic.forwarding(chk, "S13", proj, w.cg, ["component", "dependencies", "components.dynamic"], floor=4)
     chk.borrow("S12", "placeholder replacements are the per-mode variables (nothing is inlined where a fragment's placeholder was); script cache keys keep their fields unchanged; every selected base contributes its Media (shared with C08-S4, C19-S8, C16-S4)",
                lambda sub: (C08.s4(sub, proj, proj.mod("dependencies")), C19.s8_key_fields(sub, proj), __import__("djc_sa.rules.C16", fromlist=["x"]).s4b_merge_loop(sub, proj.mod("component_media"))))
     chk.borrow("S11", "scripts cached during a render are still there when the page's dependencies are collected: the library's own cache backend has an effective 'no limit' configuration (shared with C19-S7)",
